@@ -102,7 +102,7 @@ def _models(eng, extra, timeout_ms=1500):
     # subtraction of two of them cannot flip a comparison that is a tie in exact arithmetic
     import re as _re
     stub_vals = [(name, v) for name, v in list(eng.vars.items()) if _re.search(r"![0-9]+$", name) and z3.is_real(v)]
-    for bound, vs in ((1024, inputs + stub_vals), (1024, inputs), (2 ** 20, inputs)):
+    for bound, vs, gran in ((1024, inputs + stub_vals, 1024), (1024, inputs, 1024), (1024, inputs, 2 ** 24), (2 ** 20, inputs, 1024)):
         if vs is not inputs and not stub_vals:
             continue
         s.push()
@@ -110,7 +110,7 @@ def _models(eng, extra, timeout_ms=1500):
             s.set("timeout", timeout_ms)
             for name, v in vs:
                 k = z3.Int("dy$" + name)
-                s.add(v * 1024 == z3.ToReal(k))
+                s.add(v * gran == z3.ToReal(k))
                 b_ = bound if "!" not in name else 2 ** 20
                 s.add(v >= -b_, v <= b_)
             r = s.check(*extra)
@@ -128,13 +128,55 @@ def _models(eng, extra, timeout_ms=1500):
         eng.model_unknown = True
 
 
+MARGIN = 2.0 ** -26
+
+
+def margin(c, neg=False):
+    """c (or Not c when neg) strengthened so that every comparison between reals holds with an absolute slack of
+    MARGIN: a model of the strengthened path condition makes the same decisions when the arithmetic is carried out in
+    double precision (inputs are bounded by 2^20, where one rounding is < 2^-32).  Integer comparisons, equalities and
+    Boolean atoms are kept as they are."""
+    from .engine import real_val
+    eps = real_val(MARGIN)
+    if z3.is_not(c):
+        return margin(c.arg(0), not neg)
+    if z3.is_and(c) or z3.is_or(c):
+        parts = [margin(a, neg) for a in c.children()]
+        return z3.And(*parts) if (z3.is_and(c) != neg) else z3.Or(*parts)
+    k = c.decl().kind()
+    if k in (z3.Z3_OP_LE, z3.Z3_OP_LT, z3.Z3_OP_GE, z3.Z3_OP_GT) and z3.is_real(c.arg(0)):
+        a, b = c.arg(0), c.arg(1)
+        if k in (z3.Z3_OP_GE, z3.Z3_OP_GT):
+            a, b = b, a                       # now: a <(=) b
+        if not neg:
+            return a + eps <= b
+        return b + eps <= a                   # not (a <(=) b)
+    if k in (z3.Z3_OP_EQ, z3.Z3_OP_DISTINCT) and c.num_args() == 2 and z3.is_real(c.arg(0)):
+        a, b = c.arg(0), c.arg(1)
+        differ = (k == z3.Z3_OP_DISTINCT) != neg
+        if differ:
+            return z3.Or(a + eps <= b, b + eps <= a)
+        return a == b
+    return z3.Not(c) if neg else c
+
+
+def margins(eng):
+    out = []
+    for c in getattr(eng, "decisions", []):
+        try:
+            out.append(margin(c))
+        except Exception:
+            out.append(c)
+    return out
+
+
 def _dyadic_model(eng, extra, timeout_ms=4000, float_safe_only=False):
     """first model candidate; with float_safe_only only the dyadic, bounded candidates (whose conversion to floats
     is exact) are accepted"""
     n = 0
     for m in _models(eng, extra, timeout_ms):
         n += 1
-        if float_safe_only and n > 3:
+        if float_safe_only and n > 4:
             return None
         if float_safe_only and not getattr(eng, "last_model_dyadic", False):
             return None
@@ -213,6 +255,7 @@ def explore(case, roots=None, max_paths=10**9, deadline=None, timeout_ms=20000, 
     xval_attempts = 0
     viol_per_label = {}
     known_replayed = {}
+    known_attempts = {}
     while work:
         if res["paths"] >= max_paths or (deadline is not None and time.time() > deadline):
             break
@@ -310,7 +353,10 @@ def explore(case, roots=None, max_paths=10**9, deadline=None, timeout_ms=20000, 
                     break
             def try_models(extra):
                 rec_ = None
-                for model in _models(eng, extra):
+                import itertools as _it
+                marg_ = margins(eng)
+                cands = _it.chain(_it.islice(_models(eng, list(extra) + marg_), 1), _models(eng, extra)) if marg_ else _models(eng, extra)
+                for model in cands:
                     rep = concrete_run(case, model)
                     if info is not None:
                         ok_ = rep["status"] == "exception" and rep["exc"]["type"] == info["type"]
@@ -338,6 +384,14 @@ def explore(case, roots=None, max_paths=10**9, deadline=None, timeout_ms=20000, 
                         is_known = True
                 else:
                     is_known = True
+            if is_known and known_replayed.get(kmatch.get("id"), 0) < 2 and known_attempts.get(kmatch.get("id"), 0) >= 6:
+                # inside the witness class of a listed finding; enough replay attempts have been spent on it in this job
+                res["known_unreplayed"] = res.get("known_unreplayed", 0) + 1
+                L["violated"] += 1
+                path_violated = True
+                continue
+            if is_known:
+                known_attempts[kmatch.get("id")] = known_attempts.get(kmatch.get("id"), 0) + 1
             if is_known and known_replayed.get(kmatch.get("id"), 0) >= 2:
                 # the listed finding has already been re-derived and replayed in this job
                 L["violated"] += 1
@@ -374,10 +428,15 @@ def explore(case, roots=None, max_paths=10**9, deadline=None, timeout_ms=20000, 
                 res["violations"].append(rec)
                 viol_per_label[label] = viol_per_label.get(label, 0) + 1
         # path-model cross validation of the encoding (and reachability twin) --------
-        if not path_violated and exc is None and xval_done < xval and xval_attempts < xval + 2:
+        if not path_violated and exc is None and xval_done < xval and xval_attempts < xval + 2 and res.get("xval_skipped_no_float_safe_model", 0) < 2:
             xval_done += 1
             xval_attempts += 1
-            model = _dyadic_model(eng, [], float_safe_only=True)
+            # prefer a model that takes every decision of the path with a margin (robust against float rounding)
+            marg = margins(eng)
+            model = _dyadic_model(eng, marg, timeout_ms=1500, float_safe_only=True) if marg else None
+            robust = model is not None
+            if model is None:
+                model = _dyadic_model(eng, [], float_safe_only=True)
             if model is None:
                 res["xval_skipped_no_float_safe_model"] = res.get("xval_skipped_no_float_safe_model", 0) + 1
                 xval_done -= 1
@@ -415,6 +474,11 @@ def explore(case, roots=None, max_paths=10**9, deadline=None, timeout_ms=20000, 
                         res["known_hits"].append(rec_)
                     else:
                         res["violations"].append(rec_)
+                elif not robust:
+                    # the path is only feasible with some real comparison at (or within 2^-26 of) a tie: the float replay
+                    # may legitimately decide it the other way; neither agreement nor mismatch
+                    res["xval_tie_skipped"] = res.get("xval_tie_skipped", 0) + 1
+                    xval_done -= 1
                 else:
                     res["xval_fail"].append(dict(model=model_to_json(model), sym_tag=tag, replay=rep))
         res["queries"] += eng.n_queries
@@ -430,7 +494,7 @@ def explore(case, roots=None, max_paths=10**9, deadline=None, timeout_ms=20000, 
 def merge(a, b):
     """merge result b into a"""
     for k in ("paths", "feasible", "infeasible", "queries", "solver_s", "unknown", "aborted", "ob_queries", "discharged",
-              "trivially_true", "xval_ok", "forks", "wall_s", "xval_uf_skipped", "known_unreplayed", "xval_skipped_no_float_safe_model",
+              "trivially_true", "xval_ok", "forks", "wall_s", "xval_uf_skipped", "known_unreplayed", "xval_skipped_no_float_safe_model", "xval_tie_skipped",
               "second_solver_unsat", "second_solver_sat", "second_solver_unknown", "second_solver_error", "more_violations_not_replayed"):
         a[k] = a.get(k, 0) + b.get(k, 0)
     for k in ("abort_reasons", "tags", "exceptions"):
